@@ -137,6 +137,17 @@ func init() {
 			panic(pathAbort{kind: abortAssertFail, msg: "vUnreachable: " + a[0].(string)})
 		},
 		"vSymbolic": func(fr *frame, a []value) value { return true },
+		// non-forking boolean connectives and range test
+		"vAnd": func(fr *frame, a []value) value { return fromTerm(mkAnd(termOf(a[0]), termOf(a[1])), types.Bool) },
+		"vOr":  func(fr *frame, a []value) value { return fromTerm(mkOr(termOf(a[0]), termOf(a[1])), types.Bool) },
+		"vNot": func(fr *frame, a []value) value { return fromTerm(mkNot(termOf(a[0])), types.Bool) },
+		"vInRange": func(fr *frame, a []value) value {
+			c := termOf(a[0])
+			return fromTerm(mkAnd(mkPred(opULe, termOf(a[1]), c), mkPred(opULe, c, termOf(a[2]))), types.Bool)
+		},
+		"vIte": func(fr *frame, a []value) value {
+			return fromTerm(mkIte(termOf(a[0]), termOf(a[1]), termOf(a[2])), scalarKind(a[1]))
+		},
 		"vTrackPossessive": func(fr *frame, a []value) value {
 			fr.i.ps.trackPoss = a[0].(bool)
 			return nil
@@ -239,6 +250,57 @@ func indexByteTerm(bs []value, c value, last bool) *term {
 	return res
 }
 
+// indexByteFork returns the first (or last) index of byte c in bs by forking
+// on each comparison (every decision is about one byte, so the result is
+// concrete and the decisions stay within the byte-domain fast path).
+func (i *interpreter) indexByteFork(bs []value, c value, last bool) int {
+	ct := termOf(c)
+	if last {
+		for j := len(bs) - 1; j >= 0; j-- {
+			if i.decide(mkPred(opEq, termOf(bs[j]), ct)) {
+				return j
+			}
+		}
+		return -1
+	}
+	for j := 0; j < len(bs); j++ {
+		if i.decide(mkPred(opEq, termOf(bs[j]), ct)) {
+			return j
+		}
+	}
+	return -1
+}
+
+// indexStrFork: first/last index of sep in s, forking per position.
+func (i *interpreter) indexStrFork(s, sep value, last bool) int {
+	bs, bsep := strBytes(s), strBytes(sep)
+	n, m := len(bs), len(bsep)
+	if m > n {
+		return -1
+	}
+	matchAt := func(j int) *term {
+		r := termTrue
+		for k := 0; k < m; k++ {
+			r = mkAnd(r, mkPred(opEq, termOf(bs[j+k]), termOf(bsep[k])))
+		}
+		return r
+	}
+	if last {
+		for j := n - m; j >= 0; j-- {
+			if i.decide(matchAt(j)) {
+				return j
+			}
+		}
+		return -1
+	}
+	for j := 0; j+m <= n; j++ {
+		if i.decide(matchAt(j)) {
+			return j
+		}
+	}
+	return -1
+}
+
 // indexStrTerm: first/last index of sep in s (both string-like), -1 if none.
 func indexStrTerm(s, sep value, last bool) *term {
 	bs, bsep := strBytes(s), strBytes(sep)
@@ -284,14 +346,14 @@ func ext۰strings۰Index(fr *frame, args []value) value {
 	if allConcreteStrings(args[0], args[1]) {
 		return strings.Index(args[0].(string), args[1].(string))
 	}
-	return fromTerm(indexStrTerm(args[0], args[1], false), types.Int)
+	return fr.i.indexStrFork(args[0], args[1], false)
 }
 
 func ext۰strings۰LastIndex(fr *frame, args []value) value {
 	if allConcreteStrings(args[0], args[1]) {
 		return strings.LastIndex(args[0].(string), args[1].(string))
 	}
-	return fromTerm(indexStrTerm(args[0], args[1], true), types.Int)
+	return fr.i.indexStrFork(args[0], args[1], true)
 }
 
 func ext۰strings۰IndexByte(fr *frame, args []value) value {
@@ -300,7 +362,7 @@ func ext۰strings۰IndexByte(fr *frame, args []value) value {
 			return strings.IndexByte(s, c)
 		}
 	}
-	return fromTerm(indexByteTerm(strBytes(args[0]), args[1], false), types.Int)
+	return fr.i.indexByteFork(strBytes(args[0]), args[1], false)
 }
 
 func ext۰strings۰LastIndexByte(fr *frame, args []value) value {
@@ -309,7 +371,7 @@ func ext۰strings۰LastIndexByte(fr *frame, args []value) value {
 			return strings.LastIndexByte(s, c)
 		}
 	}
-	return fromTerm(indexByteTerm(strBytes(args[0]), args[1], true), types.Int)
+	return fr.i.indexByteFork(strBytes(args[0]), args[1], true)
 }
 
 func ext۰strings۰Contains(fr *frame, args []value) value {
@@ -321,7 +383,7 @@ func ext۰strings۰Contains(fr *frame, args []value) value {
 }
 
 func ext۰bytealg۰IndexByte(fr *frame, args []value) value {
-	return fromTerm(indexByteTerm(args[0].([]value), args[1], false), types.Int)
+	return fr.i.indexByteFork(args[0].([]value), args[1], false)
 }
 
 func ext۰bytealg۰CountString(fr *frame, args []value) value {
@@ -341,7 +403,7 @@ func ext۰bytealg۰Count(fr *frame, args []value) value {
 }
 
 func ext۰bytealg۰IndexString(fr *frame, args []value) value {
-	return fromTerm(indexStrTerm(args[0], args[1], false), types.Int)
+	return fr.i.indexStrFork(args[0], args[1], false)
 }
 
 func ext۰bytes۰Equal(fr *frame, args []value) value {
@@ -358,7 +420,7 @@ func ext۰bytes۰Equal(fr *frame, args []value) value {
 }
 
 func ext۰bytes۰IndexByte(fr *frame, args []value) value {
-	return fromTerm(indexByteTerm(args[0].([]value), args[1], false), types.Int)
+	return fr.i.indexByteFork(args[0].([]value), args[1], false)
 }
 
 func ext۰strings۰EqualFold(fr *frame, args []value) value {
@@ -426,7 +488,21 @@ func ext۰strings۰ReplaceAll(fr *frame, args []value) value {
 	if allConcreteStrings(args[0], args[1], args[2]) {
 		return strings.ReplaceAll(args[0].(string), args[1].(string), args[2].(string))
 	}
-	panic(unsupported("strings.ReplaceAll on a symbolic string"))
+	old, ok1 := args[1].(string)
+	if ok1 && len(old) == 1 && isStr(args[2]) {
+		// single-byte pattern: fork per byte of the subject
+		var out []value
+		repl := strBytes(args[2])
+		for _, b := range strBytes(args[0]) {
+			if fr.i.decide(mkPred(opEq, termOf(b), mkConst(uint64(old[0]), 8))) {
+				out = append(out, repl...)
+			} else {
+				out = append(out, b)
+			}
+		}
+		return mkStr(out)
+	}
+	panic(unsupported("strings.ReplaceAll on a symbolic string with a multi-byte pattern"))
 }
 
 func ext۰strings۰TrimSpace(fr *frame, args []value) value {
